@@ -137,6 +137,10 @@ def build(spec, incremental=False):
         coef = coef * (getattr(vform, spec['fn'])(arg) if spec['fn'] != 'id' else arg)
     if spec['par']:
         coef = coef * V.parameter('a')
+    if spec.get('upar'):
+        # a parameter that is declared but never used by any expression (it still appears in the constructor
+        # signature, in parameters() and in the layout of the constants array of the generated class)
+        V.parameter(spec['upar']['name'], shape=tuple(spec['upar']['shape']))
     if spec.get('nlet'):
         # a let-variable that is reached only THROUGH another let-variable
         k1 = V.let('k1', vform.as_expr(spec['nlet']['v']) * V.Jac[0, 0])
@@ -200,6 +204,7 @@ def base_spec(s):
             'let': s.pick([None, None, {'name': 'B', 'sym': True}, {'name': 'B', 'sym': False}]), 'st': False,
             'mat_kind': s.pick(['', '', '', 'param', 'input']), 'mat_shape': s.pick([[2, 3], [3, 2], [2, 2]]),
             'mat_ij': [s.choice(2), s.choice(2)], 'nlet': s.pick([None, None, None, {'v': 1.5}]),
+            'upar': s.pick([None, None, None, {'name': 'zz', 'shape': []}, {'name': 'zz', 'shape': [2]}]),
             'par': bool(s.choice(2)), 'dax': s.choice(dim), 'dtimes': 0 if comps else s.choice(3), 'dpara': False,
             'meas': {'volume': 'dx', 'nomeasure': 'none', 'boundary': 'ds', 'boundary-nomeasure': 'none'}[kind],
             'op': s.pick(['', '+', '-']), 'c2': s.pick([1.5, 4.0])}
@@ -269,6 +274,12 @@ def mutations(spec):
     if spec['comps'] and spec['dim'] == 3:
         mut('component-count', comps=(2 if spec['comps'] == 3 else 3))
     mut('parameter', par=not spec['par'])
+    if spec.get('upar'):
+        mut('unused-parameter-present', upar=None)
+        mut('unused-parameter-shape', upar=dict(spec['upar'], shape=([] if spec['upar']['shape'] else [2])))
+        mut('unused-parameter-name', upar=dict(spec['upar'], name={'zz': 'yy', 'yy': 'zz'}[spec['upar']['name']]))
+    else:
+        mut('unused-parameter-present', upar={'name': 'zz', 'shape': []})
     if spec.get('nlet'):
         mut('nested-let-definition', nlet={'v': spec['nlet']['v'] + 1.0})
         mut('nested-let-present', nlet=None)
